@@ -276,6 +276,8 @@ impl SimWorld {
         st.decisions += 1;
         let compute_level = tag == OpKind::Yield
             && (name.starts_with("format_") || name.starts_with("olf_") || name.starts_with("lexer_"));
+        // (atomic accesses and lock acquisitions in the orchestrator and in main.rs are I/O-level:
+        // there are few of them and they are exactly where shared state is touched)
         if !compute_level {
             st.io_decisions += 1;
         }
@@ -605,11 +607,9 @@ impl SimWorld {
             Some(oh) => {
                 let path = oh.path.clone();
                 if oh.owner != worker {
-                    let owner = oh.owner;
-                    Self::violate(
-                        g,
-                        format!("handle_used_by_other_worker path={path} owner={owner} user={worker} op={op:?}"),
-                    );
+                    // not a violation of anything: an implementation may open files on one
+                    // thread and hand them to another; only counted
+                    Self::probe(g, "handle_used_by_a_worker_other_than_its_opener");
                 }
                 Some(path)
             }
@@ -769,6 +769,11 @@ impl World for WorldRef {
             }
             if !flags.read && !wants_write {
                 return Err(libc::EINVAL);
+            }
+            let limit = if g.sc.knobs.fd_limit == 0 { 1021 } else { g.sc.knobs.fd_limit as usize };
+            if g.handles.len() >= limit {
+                SimWorld::probe(&mut g, "open_refused_too_many_open_files");
+                return Err(libc::EMFILE);
             }
             if (flags.truncate || flags.create || flags.create_new) && !wants_write {
                 return Err(libc::EINVAL);
